@@ -116,6 +116,8 @@ ROUND3B = {
     "C20": " unterminated_line_then_directive, C20_merge_bytes (fix D97).",
 }
 ROUND4 = {
+    "C04": " Round four: C04_run_delete_leftover (a removal whose target holds more than it removes: every hunk applies, exit 1, the file keeps exactly what is "
+           "left, no reject), family + tie T8-removal-leftover.",
     "C10": " Round four: standard input delivered in pieces (short reads on fd 0; scenario two-files-stdin-in-pieces, seeded change C10-m5).",
     "C18": " Round four: C18_run_delete_backup (_gen/_name/_stamped/_dry): the removal of a file with --backup, end to end about runPatch - the backup holds the "
            "pre-patch bytes and mode, the file is gone, nothing else changes, one rename and no unlink. C18_run_create_backup (_of_lines/_gen/_taken/_dry): the creation of a file with --backup - an empty backup is made before the "
